@@ -48,6 +48,7 @@ def run(P, rep, tier):
             rep.undecided(name, '%s:%s:analysis' % (U, name), 'analysis could not proceed: %s' % e)
         return None
 
+    part('R09.23', lambda: r_expansion_sites(P, u, rep))
     r = part('R09.1', lambda: r_expand(P, u, rep))
     rs = part('R09.3', lambda: r_subst(P, u, rep))
     if rs is not None:
@@ -1770,6 +1771,102 @@ def r_expanded_once(P, u, rep):
         rep.undecided('R09.22', '%s:subst:no-path-with-two-occurrences' % U, 'no explored path of subst has two plain occurrences of one parameter', where=w0)
 
 
+R0923 = ('an argument is macro-replaced only where its parameter occurs in the replacement list as neither an operand of # nor of ## (C11 6.10.3.1p1; an argument '
+         'that is only stringized, only pasted, or not used at all is never expanded - visible through __COUNTER__ and through arguments that would be ill-formed '
+         'invocations, `STR(ONE(1,2))`): between recognising the macro name and splicing the finished replacement, the expander (preprocess2/expand_macro) can be entered '
+         'from subst() only - no helper the machinery calls (reading and looking up arguments, stringize, paste, hide-set and list helpers, dynamic-macro handlers) can reach '
+         'it on the call graph, no path of expand_macro hands (anything derived from) the arguments to a function that expands, and subst expands nothing for a '
+         'replacement list that contains no parameter')
+
+
+def r_expansion_sites(P, u, rep):
+    """R09.23: the places from which macro expansion can be started while one invocation is being replaced"""
+    from ..lib_c09x import expand_cut_names, SUBST_CUT, subst_probe
+    from ..lib_c09z import machinery_sites, chain_to, handler_functions, reach_objects, EXPANDER
+    rep.rule('R09.23', R0923, floor=16)
+    for f in ('expand_macro', 'subst', 'read_macro_args', 'preprocess2'):
+        if f not in u.functions:
+            raise AnalysisBroken('anchor %s vanished' % f)
+    A = Agg(rep)
+    helpers, sites, calls, taken, R = machinery_sites(u, expand_cut_names(u), set(SUBST_CUT))
+    stop = set([EXPANDER, 'preprocess2'])
+    doing = {'E': 'replacing an invocation (expand_macro)', 'S': 'substituting the parameters (subst)'}
+    for h in sorted(helpers):
+        ok = h not in R
+        ch = ' -> '.join(chain_to(calls, h, R, stop)) if not ok else ''
+        A.ob('R09.23', '%s:%s:cannot-reach-the-expander' % (U, h), ok,
+             '%s, which is called while %s, can start macro expansion (%s): whatever it is given - the tokens of the invocation, an argument, an operand of # or ## - is macro-replaced '
+             'whether or not the parameter occurs as a plain token of the replacement list; an argument that is only an operand of # / ## or is not used at all must stay '
+             'unexpanded (`#define STR(x) #x` / STR(ONE(1,2)) with a one-parameter ONE is valid; STR(__COUNTER__) must not count)' % (h, doing.get(helpers[h], '?'), ch),
+             '%s:%d' % (U, u.fn(h).line), {'call chain': ch})
+    for h, (f, line) in sorted(handler_functions(u).items()):
+        if h in helpers:
+            continue
+        ok = h not in R
+        ch = ' -> '.join(chain_to(calls, h, R, stop)) if not ok else ''
+        A.ob('R09.23', '%s:%s:cannot-reach-the-expander' % (U, h), ok,
+             '%s, whose address %s stores (a dynamic-macro handler, called through m->handler), can start macro expansion (%s)' % (h, f, ch), '%s:%d' % (U, u.fn(h).line), {'call chain': ch})
+    # sites in subst / expand_macro themselves that are neither the substitution nor the argument expansion
+    for f, role, g, line in sites:
+        if g == 'subst' and role == 'H':
+            A.ob('R09.23', '%s:%s:substitution-started-by-a-helper' % (U, f), False, '%s calls subst' % f, '%s:%d' % (U, line), {})
+    # ---- expand_macro: nothing derived from the arguments goes to a function that expands
+    it, paths = explore_expand(P, u, with_empty=True)
+    w0 = '%s:%d' % (U, u.fn('expand_macro').line)
+    nfun = 0
+    for ctx, out, rest in paths:
+        D = Desc(it, ctx)
+        calls_ = [e for e in ctx.events if e[0] == 'call']
+        rma = [e for e in calls_ if e[1] == 'read_macro_args']
+        if not rma:
+            continue
+        nfun += 1
+        facts = {'path': ctx.trail, 'calls': [e[1] for e in calls_]}
+        ids = reach_objects(it, rma[0][4])
+
+        def derived(v, depth=0):
+            p_ = D.producer(v)
+            if p_ is not None:
+                if p_ is rma[0]:
+                    return True
+                return depth < 8 and any(derived(a, depth + 1) for a in p_[2])
+            if isinstance(v, View):
+                return any(isinstance(c, Obj) and id(c) in ids for c in v.cell.cands)
+            return isinstance(v, Obj) and id(v) in ids
+        bad = None
+        for e in calls_:
+            if e[1] not in R or e[1] == 'subst' or e[1] in helpers:
+                continue        # (a helper that is not looked into is judged on the call graph above)
+            if any(derived(a) for a in e[2]):
+                bad = e
+                break
+            rep.undecided('R09.23', '%s:expand_macro:%s-on-unknown-operand' % (U, e[1]), 'expand_macro calls %s, which can start macro expansion, on %s: not (derived from) the arguments of the invocation' % (
+                e[1], [show(D.of(a)) for a in e[2]]), where='%s:%d' % (U, e[3]))
+        A.ob('R09.23', '%s:expand_macro:arguments-reach-only-subst-unexpanded' % U, bad is None,
+             'expand_macro hands %s - the token list of an argument of the invocation, or a copy of it - to %s, which macro-expands it, for every argument and before the replacement list is looked at: '
+             'an argument whose parameter is only an operand of # or ##, or does not occur at all, is macro-replaced too (C11 6.10.3.1p1 exempts it). The expansion is observable: '
+             '`#define STR(x) #x` / STR(ONE(1,2)) with a one-parameter ONE is rejected, STR(__COUNTER__) and CAT(x, __COUNTER__) advance the counter' % (
+                 show(D.of(bad[2][0])) if bad and bad[2] else '?', bad[1] if bad else '?'), '%s:%d' % (U, bad[3]) if bad else w0, facts)
+    if nfun == 0:
+        rep.undecided('R09.23', '%s:expand_macro:no-funclike-path' % U, 'no explored path of expand_macro reads an argument list', where=w0)
+    # ---- subst on a replacement list without parameters
+    sit, spaths, hits, broken = subst_probe(P, u)
+    ws = '%s:%d' % (U, u.fn('subst').line)
+    if broken:
+        rep.undecided('R09.23', '%s:subst:no-parameter-no-expansion' % U, 'subst could not be explored on replacement lists without parameters: %s' % broken, where=ws)
+    else:
+        rets = [1 for ctx, out in spaths if out[0] == 'ret']
+        if len(rets) < 3:
+            rep.undecided('R09.23', '%s:subst:no-parameter-no-expansion' % U, 'subst has %d returning path(s) on replacement lists of 0..2 ordinary tokens (3 expected at least)' % len(rets), where=ws)
+        for ctx, out in spaths:
+            A.ob('R09.23', '%s:subst:no-parameter-no-expansion' % U, True, '', ws, {'path': ctx.trail})
+        for ctx, e in hits:
+            A.ob('R09.23', '%s:subst:no-parameter-no-expansion' % U, False,
+                 'subst calls %s, which macro-expands, although the replacement list consists of ordinary tokens only (no parameter, no #, no ##): arguments are expanded whatever the replacement list '
+                 'does with them - also those that are only operands of # / ## or not used at all (C11 6.10.3.1p1)' % e[1], '%s:%d' % (U, e[3]), {'path': ctx.trail})
+    A.flush()
+
+
 EOFC = '<eof>'
 
 
@@ -1830,7 +1927,8 @@ def r_arg_one(P, u, rep):
     def null_deref(it_, n):
         raise NoReturn('<null-deref>', [], n.line)
 
-    it = PInterp(P, u, {'opaque': ['new_eof'], 'models': {'equal': m_equal, 'copy_token': m_copy_token},
+    from ..lib_c09z import opaque_expanders
+    it = PInterp(P, u, {'opaque': ['new_eof'] + opaque_expanders(u, fn, ('equal', 'copy_token')), 'models': {'equal': m_equal, 'copy_token': m_copy_token},
                         'loop_limit': K + 2, 'track_stores': True, 'lazy_field': hook, 'on_null_deref': null_deref})
 
     def mk(ctx):
@@ -1948,7 +2046,8 @@ def r_args(P, u, rep):
         ctx.emit('call', 'skip', [t, args[1]], n.line, r)
         return r
 
-    it = PInterp(P, u, {'opaque': ['equal', 'new_eof'], 'cut': {'read_macro_arg_one': cut_one, 'skip': cut_skip}, 'loop_limit': 2, 'track_stores': True})
+    from ..lib_c09z import opaque_expanders
+    it = PInterp(P, u, {'opaque': ['equal', 'new_eof'] + opaque_expanders(u, fn, ('read_macro_arg_one', 'skip')), 'cut': {'read_macro_arg_one': cut_one, 'skip': cut_skip}, 'loop_limit': 2, 'track_stores': True})
 
     def mk(ctx):
         ctx.tok = Obj('Token', lazy=True, label='tok')
